@@ -176,7 +176,11 @@ func suiteShimURL(e *vh.Env) {
 				c.Close()
 			}
 		}()
+		var hostsSeen []string
 		be := httptest.NewServer(http.HandlerFunc(func(w http.ResponseWriter, r *http.Request) {
+			mu.Lock()
+			hostsSeen = append(hostsSeen, r.Host)
+			mu.Unlock()
 			http.Redirect(w, r, "http://"+r.Host+r.URL.Path+"/", http.StatusMovedPermanently)
 		}))
 		realBackend := strings.TrimPrefix(be.URL, "http://")
@@ -191,7 +195,18 @@ func suiteShimURL(e *vh.Env) {
 			hr.ServeHTTP(rw, req)
 			mu.Lock()
 			ds := append([]string(nil), seen...)
+			hsn := append([]string(nil), hostsSeen...)
+			hostsSeen = nil
 			mu.Unlock()
+			// the URL in the body contributes path and query only: the Host header of the handshake is the backend's
+			// own address, or with --rewrite-websocket-host the Host of the request that carried the open call
+			wantHost := realBackend
+			if rewrite {
+				wantHost = foreign.Addr().String()
+			}
+			if len(hsn) == 0 || hsn[0] != wantHost {
+				e.Fail("C13:handshake-host-from-client-url", fmt.Sprintf("shim open (rewrite-websocket-host %v) carried by a request for Host %s with body ws://agent.example/redir: the backend's handshake arrived with Host %q, want %q", rewrite, foreign.Addr(), hsn, wantHost), 950001, nil, hsn, wantHost)
+			}
 			for _, d := range ds {
 				if d != realBackend {
 					e.Fail("C13:foreign-dial", fmt.Sprintf("shim open (rewrite-websocket-host %v) with Host header %s; the backend %s answered the handshake with a redirect to that host; the agent then connected to %q", rewrite, foreign.Addr(), realBackend, d), 950000, nil, d, realBackend)
